@@ -223,6 +223,14 @@ Definition cap_guard (fx : fixes) (n : Z) : rd unit := fun s =>
 
 Definition LCPPolicyVersion2 : Z := 516.
 Definition LCPPolicyVersion3 : Z := 768.
+(** element types, signature algorithms, hash algorithm of pkg/tools/lcp.go (constants tie) *)
+Definition LCPPolicyElementMLE : Z := 0.
+Definition LCPPolicyElementPCONF : Z := 1.
+Definition LCPPolicyElementSBIOS : Z := 2.
+Definition LCPPolicyElementCustom : Z := 3.
+Definition LCPSignatureAlgNone : Z := 0.
+Definition LCPSignatureAlgRSAPKCS15 : Z := 1.
+Definition LCPPolHAlgSHA1 : Z := 0.
 
 (** tpm2.Algorithm.Hash(): digest size, [None] when not a hash or not linked in *)
 Definition alg_hash_size (sha3 : bool) (alg : Z) : option Z :=
@@ -266,7 +274,7 @@ Definition parse_policy (sha3 : bool) (input : list Z) : rd (list Z) :=
 
 (** parseLCPHash(buf, hash, alg): only LCPPolHAlgSHA1 = 0 *)
 Definition lcp_hash (alg : Z) : rd (list Z) :=
-  if alg =? 0 then read_n 20 else fail E_OTHER.
+  if alg =? LCPPolHAlgSHA1 then read_n 20 else fail E_OTHER.
 
 Definition elt_mle : rd (list Z) :=
   sm <- read_le 1 ;; ha <- read_le 1 ;; n <- read_le 2 ;;
@@ -317,10 +325,10 @@ Definition elt_custom (fx : fixes) (size : Z) : rd (list Z) :=
 (** parsePolicyElement: returns (Size, summary) *)
 Definition element (fx : fixes) : rd (Z * list Z) :=
   size <- read_le 4 ;; ty <- read_le 4 ;; ctl <- read_le 4 ;;
-  body <- (if ty =? 0 then elt_mle
-           else if ty =? 2 then elt_sbios
-           else if ty =? 1 then elt_pconf
-           else if ty =? 3 then elt_custom fx size
+  body <- (if ty =? LCPPolicyElementMLE then elt_mle
+           else if ty =? LCPPolicyElementSBIOS then elt_sbios
+           else if ty =? LCPPolicyElementPCONF then elt_pconf
+           else if ty =? LCPPolicyElementCustom then elt_custom fx size
            else fail E_OTHER) ;;
   ret (size, [size; ty; ctl] ++ body).
 
@@ -342,8 +350,8 @@ Definition list1_loop (fx : fixes) (esz : Z) : rd (Z * list Z) :=
 Definition policy_list1 (fx : fixes) : rd (list Z) :=
   ver <- read_le 2 ;; rs <- read_le 1 ;; sa <- read_le 1 ;; esz <- read_le 4 ;;
   ce <- list1_loop fx esz ;;
-  sg <- (if sa =? 0 then ret [0]
-         else if sa =? 1 then (x <- lcp_signature ;; ret (1 :: x))
+  sg <- (if sa =? LCPSignatureAlgNone then ret [0]
+         else if sa =? LCPSignatureAlgRSAPKCS15 then (x <- lcp_signature ;; ret (1 :: x))
          else fail E_OTHER) ;;
   ret ([1; ver; rs; sa; esz; fst ce] ++ snd ce ++ sg).
 
@@ -365,9 +373,10 @@ Definition policy_data (fx : fixes) : rd (list Z) :=
 (** LookupACMSize(header): [if len(header) < 32 { error }] (f913973; before it
     header[:32] panicked, the harness passes cap = len), Seek(24), uint32,
     [int64(acmSize * 4)] computed in uint32 *)
+Definition ACMSizeOffset : Z := 24.
 Definition lookup_acm_size (fx : fixes) (header : list Z) : rd (list Z) :=
   if has_len header 32 then
-    seek (firstn 32 header) 24 ;;; v <- read_le 4 ;; ret [wrap32 (v * 4)]
+    seek (firstn 32 header) ACMSizeOffset ;;; v <- read_le 4 ;; ret [wrap32 (v * 4)]
   else if fx_bounds fx then fail E_FIX else panic.
 
 (** [uintW(a) * uintW(b)]: the product as the machine computes it in [w]-bit
@@ -408,25 +417,45 @@ Definition txt_status_fields (u : Z) : list Z :=
 Definition txt_errorcode_fields (u : Z) : list Z :=
   [bits u 0 4; bits u 4 6; bits u 10 5; bit u 15; bits u 16 12; bits u 28 2; bit u 30; bit u 31].
 
+(** register offsets inside the TXT public space (the unexported constants of
+    pkg/tools/txt.go; re-read from the source by the constants tie) *)
+Definition txtSts : Z := 0.
+Definition txtEsts : Z := 8.
+Definition txtErrorCode : Z := 48.
+Definition txtBootStatus : Z := 160.
+Definition txtVerFSBIF : Z := 256.
+Definition txtDIDVID : Z := 272.
+Definition txtVerQPIFF : Z := 512.
+Definition txtsInitBase : Z := 624.
+Definition txtsInitSize : Z := 632.
+Definition txtMLEJoin : Z := 656.
+Definition txtHeapBase : Z := 768.
+Definition txtHeapSize : Z := 776.
+Definition txtACMStatus : Z := 808.
+Definition txtDMAProtectedRange : Z := 816.
+Definition txtACMPolicyStatus : Z := 888.
+Definition txtPublicKey : Z := 1024.
+Definition txtE2STS : Z := 2288.
+
 Definition parse_txt_regs (fx : fixes) (data : list Z) : rd (list Z) :=
   sts <- read_le 8 ;;                                   (* readTXTStatus: NewReader(data) *)
-  slice_at fx data 48 ;;; ec <- read_le 4 ;;            (* readTXTErrorCode: Seek(0x30) (84f1c2a; was data[0x30:]) *)
-  slice_at fx data 816 ;;; dpr <- read_le 4 ;;          (* readDMAProtectedRange: Seek(0x330) (was data[0x330:]) *)
-  seek data 8 ;;; rst <- read_le 1 ;;                   (* TxtReset = bit 0 of TXT.ESTS (fix 28e1a56) *)
-  seek data 160 ;;; bs <- read_le 8 ;;
-  seek data 256 ;;; fsb <- read_le 4 ;;
-  seek data 272 ;;; vid <- read_le 2 ;; did <- read_le 2 ;; rid <- read_le 2 ;; ext <- read_le 2 ;;
-  seek data 512 ;;; qpi <- read_le 4 ;;
-  seek data 624 ;;; sb <- read_le 4 ;;
-  seek data 632 ;;; ssz <- read_le 4 ;;
-  seek data 656 ;;; mj <- read_le 4 ;;
-  seek data 768 ;;; hb <- read_le 4 ;;
-  seek data 776 ;;; hs <- read_le 4 ;;
-  seek data 1024 ;;; k0 <- read_le 8 ;;
-  seek data 1032 ;;; k1 <- read_le 8 ;;
-  seek data 1040 ;;; k2 <- read_le 8 ;;
-  seek data 1048 ;;; k3 <- read_le 8 ;;
-  seek data 2288 ;;; e2 <- read_le 8 ;;
+  slice_at fx data txtErrorCode ;;; ec <- read_le 4 ;;  (* readTXTErrorCode: Seek(0x30) (84f1c2a; was data[0x30:]) *)
+  slice_at fx data txtDMAProtectedRange ;;; dpr <- read_le 4 ;; (* readDMAProtectedRange: Seek(0x330) (was data[0x330:]) *)
+  seek data txtEsts ;;; rst <- read_le 1 ;;             (* TxtReset = bit 0 of TXT.ESTS (fix 28e1a56) *)
+  seek data txtBootStatus ;;; bs <- read_le 8 ;;
+  seek data txtVerFSBIF ;;; fsb <- read_le 4 ;;
+  seek data txtDIDVID ;;; vid <- read_le 2 ;; did <- read_le 2 ;; rid <- read_le 2 ;; ext <- read_le 2 ;;
+  seek data txtVerQPIFF ;;; qpi <- read_le 4 ;;
+  seek data txtsInitBase ;;; sb <- read_le 4 ;;
+  seek data txtsInitSize ;;; ssz <- read_le 4 ;;
+  seek data txtMLEJoin ;;; mj <- read_le 4 ;;
+  seek data txtHeapBase ;;; hb <- read_le 4 ;;
+  seek data txtHeapSize ;;; hs <- read_le 4 ;;
+  seek data txtPublicKey ;;; k0 <- read_le 8 ;;
+  seek data (txtPublicKey + 8) ;;; k1 <- read_le 8 ;;
+  seek data (txtPublicKey + 16) ;;; k2 <- read_le 8 ;;
+  seek data (txtPublicKey + 24) ;;; k3 <- read_le 8 ;;
+  seek data txtE2STS ;;; e2 <- read_le 8 ;;
   ret (txt_status_fields sts ++ [bit rst 0] ++ txt_errorcode_fields ec ++
        [ec; bs; fsb; vid; did; rid; ext; qpi; sb; ssz; mj; hb; hs;
         bit dpr 0; bits dpr 4 8; bits dpr 20 12; k0; k1; k2; k3; e2]).
@@ -442,7 +471,7 @@ Definition parse_bios_data : rd (list Z) :=
 
 (** ReadACMStatus: Seek(0x328) (84f1c2a; was data[0x328:]) *)
 Definition read_acm_status (fx : fixes) (data : list Z) : rd (list Z) :=
-  slice_at fx data 808 ;;; u <- read_le 8 ;;
+  slice_at fx data txtACMStatus ;;; u <- read_le 8 ;;
   ret [bit u 31; bits u 16 12; bit u 15; bits u 10 5; bits u 4 6; bits u 0 4].
 
 Definition read_raw64_at (data : list Z) (off : Z) : rd (list Z) :=
@@ -548,16 +577,24 @@ Fixpoint lookup_id (id : list Z) (t : list (list Z * Z)) : option Z :=
 (** ValueFromBytes(id, b): the raw value (the reader runs over [b]).  Since the
     repair 4a8d65e in /repo a value with bytes left over after the register's
     width is refused ([buf.Len() != 0] after the read; the reader runs over [b],
-    so that is [w < len b]); before it the trailing bytes were ignored. *)
-Definition value_from_bytes (id : list Z) (b : list Z) : rd (list Z) :=
+    so that is [w < len b]); before it the trailing bytes were ignored
+    ([strict = false], kept for the [_needs_] theorem only). *)
+Definition value_from_bytes_g (strict : bool) (id : list Z) (b : list Z) : rd (list Z) :=
   if zlist_eqb id ID_PUBKEY then
     (if lenZ b =? 32 then ret b else fail E_OTHER)
   else match lookup_id id reg_width_table with
        | Some w => v <- read_le w ;;
-                   if w <? lenZ b then fail E_OTHER
+                   if strict && (w <? lenZ b) then fail E_OTHER
                    else ret [if zlist_eqb id ID_ACM_STATUS then v mod 4294967296 else v]
        | None => fail E_OTHER
        end.
+(** the code as it is *)
+Definition value_from_bytes : list Z -> list Z -> rd (list Z) := value_from_bytes_g true.
+
+(** the serialised width of a register id: 32 for TXT.PUBLIC.KEY, the width of
+    the parser table the id is listed in, [None] for an unknown id *)
+Definition reg_width (id : list Z) : option Z :=
+  if zlist_eqb id ID_PUBKEY then Some 32 else lookup_id id reg_width_table.
 
 (** registersForSerializationOBSOLETE.ParseRegisters over the entries
     json.Unmarshal produced; the harness frames them as
@@ -795,10 +832,14 @@ Fixpoint caps_loop (lines : list (list Z)) : rd (list Z) := fun s =>
       end
   end.
 
-(** 2 = TypeTPM20, 1 = TypeTPM12 *)
+(** the TPM types (pkg/tpmdetection: TypeNoTPM, TypeTPM12, TypeTPM20; constants tie) *)
+Definition TypeNoTPM : Z := 0.
+Definition TypeTPM12 : Z := 1.
+Definition TypeTPM20 : Z := 2.
+
 Definition local_caps (caps : list Z) : rd (list Z) :=
   ver <- caps_loop (split_on 10 caps) ;;
-  ret [if zlist_eqb ver [50; 46; 48] then 2 else 1].
+  ret [if zlist_eqb ver [50; 46; 48] then TypeTPM20 else TypeTPM12].
 
 (** ** pkg/check/bounds.go: BytesRange(b, start, end) with len(b) = [len] *)
 Definition bytes_range (len start fin : Z) : rd (list Z) :=
